@@ -358,7 +358,8 @@ def run_job(spec):
                     # ---- 3. counterexample replay on the unmodified library
                     cx2 = V.concrete(m2)
                     real2 = plain_call(spec["module"], spec["harness"], skel, cx2)
-                    why = H.oracle(skel, cx2, real2)
+                    # a harness with several obligations may judge each one separately
+                    why = H.oracle_ob(pname, skel, cx2, real2) if hasattr(H, "oracle_ob") else H.oracle(skel, cx2, real2)
                     if why is None:
                         res["inconclusive"].append(
                             f"{pname}: counterexample does not reproduce (encoding/oracle mismatch): inputs={cx2} out={jsonable(real2)!r}"[:600])
